@@ -45,7 +45,7 @@ import threading
 import time
 
 from bounded.common import Check, rng
-from spec.vt100 import ANY, VT100, Ambiguous, OutOfSubset, denoted
+from spec.vt100 import ANY, VT100, Ambiguous, OutOfSubset, colour_matches
 
 from urwid import str_util, util, vterm
 from urwid.display import AttrSpec
@@ -630,9 +630,9 @@ def diff(real, ref):
             # Colours are compared by what they denote (spec.vt100.denoted): urwid's AttrSpec cannot hold a palette index next
             # to a 24-bit colour and then stores palette entries 16..255 as the fixed value xterm defines for them (entries 0..15,
             # which are theme-dependent, stay indices).  Same colour on the screen, so not a divergence.  [oracle decision sC15]
-            if wbg is not ANY and denoted(bg) != denoted(wbg):  # cells created by a resize: colours not constrained
+            if not colour_matches(bg, wbg):  # ANY (cells created by a resize): not constrained
                 return "bg", f"cell (col {x}, row {y}) {ch!r} has background {bg}, reference {wbg}"
-            if wfg is not ANY and denoted(fg) != denoted(wfg):  # erased blanks: the foreground is not constrained
+            if not colour_matches(fg, wfg):  # ANY: erased blanks: the foreground is not constrained
                 return "fg", f"cell (col {x}, row {y}) {ch!r} has foreground {fg}, reference {wfg}"
     if cur != ref.cursor():
         return "cursor", f"cursor (col,row) is {cur}, reference {ref.cursor()}"
@@ -747,9 +747,9 @@ def families(tier):
     resize = [*rs, ("scroll", b"p\r\nq\r\nr"), ("x", b"x"), ("CUP()", csi("H")), ("CUP(3,1)", csi("3;1H")), ("CUP(4,2)", csi("4;2H")), ("CUP(9,9)", csi("9;9H")), ("CUP(1,4)", csi("1;4H")), ("LF", b"\n"), ("SGR44", csi("44m")), ("EL0", csi("K")), ("ICH", csi("@"))]
     # Every token selects colours / renditions and prints one cell, so that what each SGR leaves selected is observed at once.
     # Either side: default, basic, bright, 256-colour (an index below 16 and one above), 24-bit; both sides in one SGR with a
-    # 24-bit colour next to a basic one; SGRs that do not reset (the other side only, underline / blink / negative and their
+    # 24-bit colour next to a basic one; SGRs that do not reset (the other side only, bold / underline / blink / negative and their
     # resets), and the reset.
-    acc = ["31", "91", "38;5;200", "38;5;3", "38;2;1;2;3", "39", "42", "104", "48;5;100", "48;5;1", "48;2;4;5;6", "49", "38;2;10;20;30;44", "32;48;2;200;100;50", "93;48;5;7", "38;2;1;2;3;48;2;4;5;6", "4", "5", "7", "24;25;27", "0", ""]
+    acc = ["31", "91", "38;5;200", "38;5;3", "38;2;1;2;3", "39", "42", "104", "48;5;100", "48;5;1", "48;2;4;5;6", "49", "38;2;10;20;30;44", "32;48;2;200;100;50", "93;48;5;7", "38;2;1;2;3;48;2;4;5;6", "1", "4", "5", "7", "24;25;27", "0", ""]
     sgr_acc = [(f"SGR{a} x", csi(a + "m") + b"x") for a in acc]
     return {
         # name: (tokens, [(size, filled?, maxlen[, first-token prefix(es) required at length maxlen])...])
